@@ -426,7 +426,7 @@ func timePool(r *eng.Run) []T {
 		for k := uint(7); k <= 41; k += 8 {
 			secs = append(secs, 1<<k, 1<<k-1, -(1 << k), -(1<<k - 1))
 		}
-		nanos = append(nanos, 127, 128, 65535, 65536, 1 << 24, 1<<29 + 1)
+		nanos = append(nanos, 127, 128, 65535, 65536, 1<<24, 1<<29+1)
 	}
 	seen := map[int64]bool{}
 	pool := []T{{Zero: true}}
